@@ -400,6 +400,17 @@ func evaluatorConstruction(c *Ctx, rule string) {
 	}
 	for _, name := range []string{"addRuntimeFunctions", "(*Evaluator).addProgramFunctions", "(*Evaluator).readRules"} {
 		f := p.LangFunc(name)
+		if f == nil && strings.HasSuffix(name, "readRules") {
+			// the partitioning may be written out in the constructor itself
+			inline := false
+			for _, st := range storesToField(ne, "Evaluator", "patternRules", false) {
+				if strings.HasPrefix(p.Render(st.Val), "append(") {
+					inline = true
+				}
+			}
+			c.check(inline, rule, "installed-by-constructor "+name, p.Pos(ne.Pos()), "the constructor partitions the rules itself", "neither a readRules method nor the constructor itself fills the rule lists")
+			continue
+		}
 		if f == nil {
 			c.undecided(rule, "installer "+name, "", "anchor not found")
 			continue
